@@ -397,7 +397,7 @@ class Check(PropertyCheck):
     lean_targets = ['RegionsVerif.Props.C09', 'RegionsVerif.Props.C09Lex']
     namespaces = ['RegionsVerif.Props.C09']
     rule = ('lists of 1..8 regions: all ten DS9 shapes (+ regular polygon) x frames {image, icrs, fk5, fk4, galactic, '
-            'ecliptic} x precision 1..12 x magnitudes 1e-3..1e6 (dyadic values incl. exact rounding ties, decimal-looking '
+            'ecliptic} x precision 0..12 x magnitudes 1e-3..1e6 (dyadic values incl. exact rounding ties, decimal-looking '
             'values, random doubles; pixel numbers given as Python int/float or NumPy float64/float32/int64/int32/int16 '
             'scalars, coordinates also as 0-d arrays; '
             'values, random doubles) x sky units {deg, arcmin, arcsec, rad} x meta/visual vocabulary (include '
@@ -793,7 +793,7 @@ class Check(PropertyCheck):
         n = int(os.environ.get("C09_N", 1500 if tier == "quick" else 15000))
         cases = []
         for i in range(n):
-            p = rng.randint(1, 12)
+            p = rng.randint(0, 12)
             nreg = rng.choice([1, 1, 2, 2, 3, 4, 5, 6, 7, 8])
             mode = rng.random()
             if mode < 0.35:
